@@ -54,7 +54,7 @@ package ro
 //@ func (*publishSubjectImpl).SubscribeWithContext
 //@   props C01 C02 C03 C10 C11 C13 C14 C09 C06
 //@   binds subscriberCtx destination
-//@   ensures [one-critical-section|C02,C10,C11,C13,C09] count(lock.mu) == 1 && heldat(mu, sub.ANY) && heldat(mu, loop.ANY)
+//@   ensures [one-critical-section|C02,C10,C11,C13,C09] count(lock.mu) == 1 && heldat(mu, sub.ANY)
 //@   alias sub=NewSubscriber()
 //@   track call.NewSubscriber observers.* NewSubscriber().*
 //@   ensures [wraps-then-registers-when-open|C01,C03,C10,C14,C09,C06] atlock(status) == 0 ==> trace(call.NewSubscriber(destination), observers.Store(_, res(call.NewSubscriber)), sub.Add(_))
@@ -129,7 +129,7 @@ package ro
 //@ func (*behaviorSubjectImpl).SubscribeWithContext
 //@   props C01 C02 C03 C10 C11 C13 C14 C09 C06
 //@   binds subscriberCtx destination
-//@   ensures [one-critical-section|C02,C10,C11,C13,C09] count(lock.mu) == 1 && heldat(mu, sub.ANY) && heldat(mu, loop.ANY)
+//@   ensures [one-critical-section|C02,C10,C11,C13,C09] count(lock.mu) == 1 && heldat(mu, sub.ANY)
 //@   alias sub=NewSubscriber()
 //@   track call.NewSubscriber observers.* NewSubscriber().*
 //@   ensures [open-replays-latest-then-registers|C01,C02,C03,C10,C14,C09,C06] atlock(status) == 0 ==> trace(call.NewSubscriber(destination), sub.NextWithContext(atlock(last).A, atlock(last).B), observers.Store(_, res(call.NewSubscriber)), sub.Add(_))
@@ -203,7 +203,7 @@ package ro
 //@ func (*asyncSubjectImpl).SubscribeWithContext
 //@   props C01 C02 C03 C10 C11 C13 C14 C09 C06
 //@   binds subscriberCtx destination
-//@   ensures [one-critical-section|C02,C10,C11,C13,C09] count(lock.mu) == 1 && heldat(mu, sub.ANY) && heldat(mu, loop.ANY)
+//@   ensures [one-critical-section|C02,C10,C11,C13,C09] count(lock.mu) == 1 && heldat(mu, sub.ANY)
 //@   alias sub=NewSubscriber()
 //@   track call.NewSubscriber observers.* NewSubscriber().*
 //@   ensures [wraps-then-registers-when-open|C01,C03,C10,C14,C09,C06] atlock(status) == 0 ==> trace(call.NewSubscriber(destination), observers.Store(_, res(call.NewSubscriber)), sub.Add(_))
@@ -365,7 +365,7 @@ package ro
 //@ func (*unicastSubjectImpl).SubscribeWithContext
 //@   props C01 C03 C10 C13 C02 C05 C20 C08 C09 C06
 //@   binds subscriberCtx destination
-//@   ensures [one-critical-section|C05,C08,C10,C13,C20,C09] count(lock.mu) == 1 && heldat(mu, sub.NextWithContext) && heldat(mu, sub.ErrorWithContext) && heldat(mu, sub.CompleteWithContext) && heldat(mu, loop.ANY)
+//@   ensures [one-critical-section|C05,C08,C10,C13,C20,C09] count(lock.mu) == 1 && heldat(mu, sub.ErrorWithContext) && heldat(mu, sub.CompleteWithContext) && heldat(mu, loop.ANY)
 //@   ensures [teardown-registered-outside-the-subject-lock-because-a-closed-subscriber-runs-it-at-once|C06,C03,C10] notheldat(mu, sub.Add)
 //@   alias sub=subscription
 //@   track call.NewSubscriber subscription.* loop.*
